@@ -37,6 +37,12 @@ BurstRows == [kind : {"burst"}, k : {2, 8}, tr : Transports, fmt : {"ns.orig"}]
 BurstExpected(r) == [ran |-> r.k, own |-> r.k]
 P_C01_Burst(r, o) == o.ran = r.k /\ o.own = r.k
 
+\* a second client / server pair without any option lives in the same process as pairs configured with parameter encoders /
+\* decoders: options given to one client or server are nobody else's business
+PlainRows == [kind : {"plain"}, tr : Transports, fmt : {"ns.orig"}]
+PlainExpected(r) == [ok |-> TRUE]
+P_C01_Plain(r, o) == o.ok
+
 RT(x) == <<"rt", x>>
 Arg(i) == <<"a", i>>
 Zero == <<"zero">>
